@@ -1,4 +1,5 @@
 import ScriggoV.Model.Scopes
+import ScriggoV.Model.EnvPool
 /-! Line protocol of C19 (model: `Model/Scopes.lean`).
 
 `check <template 0|1> <allowGo 0|1> <importer> <failing> <globals> <ops>`
@@ -10,7 +11,15 @@ import ScriggoV.Model.Scopes
   form     := `D` | `N <name>` | `P` | `B` | `F <k> <name>…`
   kind     := builtin | type | const | var | func | nil | iota | pkg
 answers `ok natives=<prov:name,…|->` (`G:` global, `I<path>:` importer; in order of first
-resolution) or `err <error>`. -/
+resolution) or `err <error>`.
+
+`runs <k> <sig>… <n> <call>… <runs> <m> <run index>…` (model: `Model/EnvPool.lean` under the rules
+regenerated from callNative, `EnvPool.codeRules`)
+  sig  := a word over `e` (native.Env) `r` (ordinary) `v` (variadic)
+  call := `<native index> <m|g|c> <s|a>`   (calling VM: main / goroutine / callback; synchronous / go)
+  then the number of runs (run `i` has env `i`) and a schedule
+answers `ok <run>|<run>|…`, a run being `<native index>.<env the callee was handed | x>,…` in the
+order of the observations (`-` when there is none). -/
 namespace ScriggoV.Drv.C19
 open ScriggoV.Scopes
 
@@ -100,7 +109,50 @@ def dedup : List String → List String → List String
   | [], acc => acc.reverse
   | x :: xs, acc => if acc.contains x then dedup xs acc else dedup xs (x :: acc)
 
+open ScriggoV.EnvPool in
+def pSig : P (List ScriggoV.Gen.NativeEnv.SlotClass) := fun ts => do
+  let (w, ts) ← pTok ts
+  let cs ← w.toList.mapM fun c =>
+    if c == 'e' then some ScriggoV.Gen.NativeEnv.SlotClass.env
+    else if c == 'r' then some .reg
+    else if c == 'v' then some .variadic
+    else none
+  pure (cs, ts)
+
+open ScriggoV.EnvPool in
+def pCall : P Call := fun ts => do
+  let (f, ts) ← pNat ts
+  let (vm, ts) ← (match ts with
+    | "m" :: ts => some (VMKind.main, ts)
+    | "g" :: ts => some (.goroutine, ts)
+    | "c" :: ts => some (.callback, ts)
+    | _ => none)
+  let (async, ts) ← (match ts with
+    | "s" :: ts => some (false, ts)
+    | "a" :: ts => some (true, ts)
+    | _ => none)
+  pure (⟨f, vm, async, []⟩, ts)
+
+open ScriggoV.EnvPool in
+def showSeen (o : Seen) : String :=
+  toString o.f ++ "." ++ (match envsOf o.got with | e :: _ => toString e | [] => "x")
+
+open ScriggoV.EnvPool in
+def runsAnswer (natives : List (List ScriggoV.Gen.NativeEnv.SlotClass)) (body : List Call) (n : Nat)
+    (sched : List Nat) : String :=
+  let s := ScriggoV.Runs.runSched sched (freshSys codeRules natives body n)
+  let per := (List.range n).map fun i =>
+    let os := ScriggoV.Runs.obsOf i s
+    if os.isEmpty then "-" else ",".intercalate (os.map showSeen)
+  "ok " ++ "|".intercalate per
+
 def handle : List String → Option String
+  | "runs" :: ts => do
+    let (natives, ts) ← pCounted pSig ts
+    let (body, ts) ← pCounted pCall ts
+    let (n, ts) ← pNat ts
+    let (sched, ts) ← pCounted pNat ts
+    if !ts.isEmpty || n > 64 then none else pure (runsAnswer natives body n sched)
   | "check" :: ts => do
     let (template, ts) ← pBool ts
     let (allowGo, ts) ← pBool ts
